@@ -501,3 +501,25 @@ Definition run_collect (fs : fsys) (tbl : list (path * list import))
 Definition run_check (deps : list (list seg * list decl)) (own : list decl)
            (imports : list vimport) (uses : list use) : list (Z * Z) :=
   check_entry deps own imports uses.
+
+(* ------------------------------------------------------------------ witness data used by Props.v *)
+(* a small file system used by the witnesses: <root>/p with a.incn, a/b.incn, c/mod.incn, d.incan,
+   e/__init__.incn, sub/x.incn, sub/a.incn *)
+Definition wfs : fsys :=
+  [File (P [100] 10 Incn); File (P [100; 10] 11 Incn); File (P [100; 12] MODN Incn);
+   File (P [100] 13 Incan); File (P [100; 14] INIT Incn); File (P [100; 20] 21 Incn);
+   File (P [100; 20] 10 Incn)].
+
+(* a two-file import cycle *)
+Definition cyc_fs : fsys := [File (P [100] 10 Incn); File (P [100] 11 Incn)].
+Definition cyc_imps : path -> list import :=
+  imps_of [(P [100] 10 Incn, [I KFrom false 0 [11]]); (P [100] 11 Incn, [I KFrom false 0 [10]])].
+
+(* one loaded module m (name [10]) with a private function 30 and a public function 31 *)
+Definition vdeps : list (list seg * list decl) := [([10], [D 30 false DFn; D 31 true DFn])].
+
+(* a flat three-file project with a cycle b <-> c and a missing module 99 *)
+Definition flat_fs : fsys := [File (P [100] 10 Incn); File (P [100] 11 Incn); File (P [100] 12 Incn)].
+Definition flat_imps : path -> list import :=
+  imps_of [(P [100] 10 Incn, [I KFrom false 0 [11]]); (P [100] 11 Incn, [I KFrom false 0 [12]; I KFrom false 0 [99]]);
+           (P [100] 12 Incn, [I KFrom false 0 [11]])].
